@@ -129,7 +129,283 @@ def classify(P, gbs, mode, dt_last):
     return req, alw
 
 
+def run_hybrid(case):
+    """Collisions inside the close-encounter phase of the hybrid integrators (MERCURIUS, TRACE): there the search runs after every
+    sub-step of the encounter integration, over the encounter group only, through an index map that is fixed up after every removal.
+    Observation points (all public callbacks, no source change): the resolve callback (wrapping the built-in resolver), the
+    additional_forces callback (every force evaluation: reads the group) and, for MERCURIUS, post_timestep_modifications, which the
+    encounter loop calls right after each sub-step's search.
+      group     after a removal the group, as identities, must be the group before minus the removed identity - at every later observation
+                of the step (a wrong fix-up drops the merger product or pulls in a bystander for the rest of the step);
+      detection per search pass: the state at the first callback of a pass (MERCURIUS: also at the hook of a pass without callbacks) is the
+                state the search ran on; brute-force classification restricted to the expected group: presented subset-of allowed, required subset-of presented;
+      resolve   pair conservation across the built-in merge, indices valid, nobody removed twice, survivors = initial - removed."""
+    import ctypes, warnings
+    warnings.simplefilter('ignore')
+    import rebound
+    from rebound import clibrebound as clib
+    from rebound.simulation import CollisionS
+    r = random.Random(case['seed'])
+    viol = []
+    counters = dict(hybrid_steps=0, hybrid_callbacks=0, hybrid_merges=0, hybrid_group_observations_after_a_removal=0, hybrid_passes_classified=0,
+                    hybrid_required_pairs=0, hybrid_steps_with_2plus_removals=0, hybrid_removals_from_noncontiguous_group=0, hybrid_hook_passes_without_callbacks=0)
+    cells = set()
+
+    def add(mech, msg):
+        if len(viol) < 40:
+            viol.append(dict(mech=mech, msg=msg))
+    for fn in ('reb_collision_resolve_merge', 'reb_collision_resolve_hardsphere'):
+        getattr(clib, fn).restype = ctypes.c_int
+        getattr(clib, fn).argtypes = [ctypes.c_void_p, CollisionS]
+    for _ in range(case['n']):
+        integ = r.choice(['mercurius', 'trace'])
+        resolver = r.choice(['merge', 'merge', 'merge', 'hardsphere'])
+        d = r.uniform(2.0, 8.0)
+        vc = math.sqrt(1.0 / d)
+        period = 2 * math.pi * d ** 1.5
+        dt = period * r.choice([0.005, 0.015, 0.03]) * r.choice([1, 1, 1, -1])
+        if resolver == 'hardsphere':
+            dt = abs(dt)          # "approaching" is decided from the velocities: run backwards, a bounce sends the pair INTO each other and the adaptive
+                                  # encounter integration keeps bouncing them with ever smaller sub-steps (not a detection question)
+        R = d * r.choice([0.001, 0.002, 0.004])
+        ang = r.uniform(0, 2 * math.pi)
+        ex, ey = math.cos(ang), math.sin(ang)
+        bodies = []
+        # the target of the group and g-1 impactors aimed at where the target will be after t_k (several of them within the same step)
+        g = r.choice([3, 3, 4, 5])
+        mt = r.choice([1e-6, 1e-5, 1e-8])
+        tgt = dict(m=mt, r=R, x=d * ex, y=d * ey, z=0.0, vx=-ey * vc, vy=ex * vc, vz=0.0)
+        bodies.append(tgt)
+        for k in range(g - 1):
+            tk = abs(dt) * r.choice([r.uniform(0.05, 0.95), r.uniform(0.05, 0.95), r.uniform(1.05, 2.9)])
+            sep = r.uniform(3 * R, 0.03 * d)
+            th, ph = math.acos(r.uniform(-1, 1)), r.uniform(0, 2 * math.pi)
+            u = (math.sin(th) * math.cos(ph), math.sin(th) * math.sin(ph), math.cos(th) * 0.3)
+            sg = 1.0 if dt > 0 else -1.0
+            miss = [r.uniform(-1, 1) * R * r.choice([0.0, 0.5, 1.5]) for _q in range(3)]
+            bodies.append(dict(m=mt * r.choice([1e-3, 1e-2, 0.3, 1.0]) if r.random() < 0.85 else 0.0, r=R * r.choice([0.3, 1.0, 1.0, 2.0]),
+                               x=tgt['x'] + sep * u[0], y=tgt['y'] + sep * u[1], z=sep * u[2],
+                               vx=tgt['vx'] - sg * (sep * u[0] + miss[0]) / tk, vy=tgt['vy'] - sg * (sep * u[1] + miss[1]) / tk, vz=-sg * (sep * u[2] + miss[2]) / tk))
+        nby = r.choice([1, 2, 3, 4])
+        for k in range(nby):
+            a = d * r.choice([0.3, 0.45, 0.6, 1.6, 2.2, 3.0]) * r.uniform(0.95, 1.05)
+            f = r.uniform(0, 2 * math.pi)
+            v = math.sqrt(1.0 / a)
+            bodies.append(dict(m=r.choice([1e-7, 1e-6, 1e-4]), r=R * 0.1, x=a * math.cos(f), y=a * math.sin(f), z=0.0, vx=-v * math.sin(f), vy=v * math.cos(f), vz=0.0, bystander=1))
+        order = list(range(len(bodies)))
+        if r.random() < 0.8:
+            r.shuffle(order)
+        sim = rebound.Simulation()
+        sim.rand_seed = r.randrange(1, 2 ** 31)
+        sim.integrator = integ
+        if integ == 'mercurius':
+            sim.ri_mercurius.r_crit_hill = r.choice([3.0, 3.0, 5.0])
+        else:
+            sim.ri_trace.r_crit_hill = r.choice([3.0, 3.0, 5.0])
+        sim.dt = dt
+        sim.collision = 'direct'
+        sim.add(m=1.0, r=R * 0.5, hash=ctypes.c_uint32(1000))
+        for slot, bi in enumerate(order):
+            b = bodies[bi]
+            sim.add(m=b['m'], r=b['r'], x=b['x'], y=b['y'], z=b['z'], vx=b['vx'], vy=b['vy'], vz=b['vz'], hash=ctypes.c_uint32(1001 + bi))
+        sim.move_to_com()
+        ri = sim.ri_mercurius if integ == 'mercurius' else sim.ri_trace
+        log = []          # events of the current step: ('cb', ...), ('obs', ids), ('hook', ids, snapshot)
+        budget = [0]
+
+        def in_encounter(s):
+            return (s.ri_mercurius.mode == 1) if integ == 'mercurius' else (s.ri_trace._mode == 1)
+
+        def group(s):
+            q = s.ri_mercurius if integ == 'mercurius' else s.ri_trace
+            n, m_ = q._encounter_N, q._encounter_map
+            out = []
+            for i in range(n):
+                ix = m_[i]
+                out.append(s.particles[ix].hash.value if 0 <= ix < s.N else -1 - ix)
+            return out
+
+        def snapshot(s):
+            return dict((p.hash.value, (p.x, p.y, p.z, p.vx, p.vy, p.vz, p.r)) for p in s.particles)
+
+        def af(sp):
+            s = sp.contents
+            if in_encounter(s):
+                g_ = group(s)
+                if not log or log[-1][0] != 'obs' or log[-1][1] != g_:
+                    log.append(('obs', g_, s.t))
+
+        def ptm(sp):
+            s = sp.contents
+            if in_encounter(s):
+                log.append(('hook', group(s), s.t, snapshot(s)))
+
+        def cb(sp, c):
+            s = sp.contents
+            Nn = s.N
+            enc = in_encounter(s)
+            ent = dict(p1=c.p1, p2=c.p2, N=Nn, enc=enc, t=s.t, group=group(s) if enc else None, snap=snapshot(s))
+            if not (0 <= c.p1 < Nn and 0 <= c.p2 < Nn) or c.p1 == c.p2:
+                ent['bad_index'] = True
+                log.append(('cb', ent))
+                return 0
+            pa, pb = s.particles[c.p1], s.particles[c.p2]
+            ent['h1'], ent['h2'] = pa.hash.value, pb.hash.value
+            before = [(p.x, p.y, p.z, p.vx, p.vy, p.vz, p.r, p.m) for p in (pa, pb)]
+            budget[0] -= 1
+            if budget[0] < 0:
+                # thousands of bounces inside one step (spheres pressed into each other): from here on this user-supplied resolver ignores
+                # collisions so that the step ends; the step is counted, the callbacks after this point are not judged for conservation
+                ent.update(before=before, after=before, out=0, over_budget=True)
+                log.append(('cb', ent))
+                return 0
+            out = clib.reb_collision_resolve_merge(ctypes.addressof(s), c) if resolver == 'merge' else clib.reb_collision_resolve_hardsphere(ctypes.addressof(s), c)
+            pa, pb = s.particles[c.p1], s.particles[c.p2]
+            ent.update(before=before, after=[(p.x, p.y, p.z, p.vx, p.vy, p.vz, p.r, p.m) for p in (pa, pb)], out=out)
+            log.append(('cb', ent))
+            return out
+        sim.collision_resolve = cb
+        sim.additional_forces = af
+        if integ == 'mercurius':
+            sim.post_timestep_modifications = ptm
+        desc0 = '%s resolver %s d %.3f dt %.4f R %.4g group of %d in slots %r, %d bystanders' % (integ, resolver, d, dt, R, g, sorted(1 + order.index(k) for k in range(g)), nby)
+        for step in range(r.choice([2, 3, 4])):
+            del log[:]
+            budget[0] = 3000
+            ids0 = [p.hash.value for p in sim.particles]
+            try:
+                sim.step()
+            except Exception as e:
+                add('hybrid:step-raises', '%s: %r' % (desc0, e))
+                break
+            counters['hybrid_steps'] += 1
+            if budget[0] < 0:
+                counters['hybrid_steps_cut_by_callback_budget'] = counters.get('hybrid_steps_cut_by_callback_budget', 0) + 1
+            desc = '%s step %d' % (desc0, step)
+            expected = None          # expected group identities once a removal has happened in this step
+            removed = []
+            pass_t, pass_presented, pass_snap, pass_group, pass_removed = None, None, None, None, None
+            touched, exempt = set(), set()
+
+            def close_pass():
+                if pass_snap is None or pass_group is None:
+                    return
+                hs = [h for h in pass_group if h in pass_snap]
+                P = [pass_snap[h] for h in hs]
+                req, alw = classify(P, [(0.0,) * 6], 'direct', 0.0)
+                counters['hybrid_passes_classified'] += 1
+                counters['hybrid_required_pairs'] += len(req)
+                alw_id = set((hs[i], hs[j]) for (i, j, _g) in alw)
+                for (h1, h2) in pass_presented:
+                    if (h1, h2) not in alw_id and h1 in hs and h2 in hs and (h1, h2) not in exempt:
+                        add('hybrid:resolve:pair-not-detected-at-search-time', '%s: identities %r presented at t=%r were not an overlapping approaching pair when that search ran' % (desc, (h1, h2), pass_t))
+                gone = set()
+                for (h1, h2, rem) in pass_removed:
+                    gone.add(rem)
+                for (i, j, _g) in req:
+                    h1, h2 = hs[i], hs[j]
+                    if (h1, h2) in pass_presented:
+                        continue
+                    if resolver == 'merge' and (h1 in gone or h2 in gone):
+                        continue
+                    add('hybrid:search:overlapping-pair-of-the-encounter-group-not-handed-to-resolve:%s' % integ, '%s: at t=%r the group members %r overlap while approaching (radii %r, %r) but were never presented in that search pass (presented: %r; removed earlier in the step: %r)' % (
+                        desc, pass_t, (h1, h2), pass_snap[h1][6], pass_snap[h2][6], sorted(pass_presented), removed))
+            for ev in log:
+                if ev[0] == 'cb':
+                    e = ev[1]
+                    counters['hybrid_callbacks'] += 1
+                    if e.get('bad_index'):
+                        add('hybrid:resolve:index-out-of-range-or-self', '%s: callback with p1=%d p2=%d while N=%d' % (desc, e['p1'], e['p2'], e['N']))
+                        continue
+                    if e['enc']:
+                        if pass_snap is not None and any(e['snap'][h] != pass_snap[h] for h in pass_snap if h not in touched and h in e['snap']):
+                            close_pass()            # bodies that no resolution of the current pass has touched have moved: a sub-step lies in between
+                            pass_snap = None
+                        if pass_snap is None:
+                            # first callback of a search pass: the state the search ran on (all collisions of a pass are collected before the first is resolved)
+                            pass_t, pass_presented, pass_snap, pass_removed = e['t'], set(), e['snap'], []
+                            pass_group = list(expected) if expected is not None else list(e['group'])
+                            touched.clear()
+                            exempt.clear()
+                        if e['h1'] in touched or e['h2'] in touched:
+                            # (TRACE repeats the search at the same time when a sub-step is rejected: a pair with a merger product / bounced body of
+                            #  this very pass is judged against a state that no longer exists)
+                            exempt.add((e['h1'], e['h2']))
+                        pass_presented.add((e['h1'], e['h2']))
+                        if expected is not None:
+                            counters['hybrid_group_observations_after_a_removal'] += 1
+                            if sorted(e['group']) != sorted(expected):
+                                add('hybrid:encounter-group-after-removal-is-not-the-group-minus-the-removed-body:%s' % integ, '%s: group at a later callback %r, expected %r (removed so far %r)' % (desc, e['group'], expected, removed))
+                                expected = list(e['group'])
+                    if e['h1'] in removed or e['h2'] in removed:
+                        add('hybrid:resolve:removed-particle-presented-again', '%s: identities %r presented after one of them was removed this step' % (desc, (e['h1'], e['h2'])))
+                    (b1, b2), (a1, a2) = e['before'], e['after']
+                    if e['out'] or a1 != b1 or a2 != b2:
+                        touched.update((e['h1'], e['h2']))
+                    if resolver == 'merge' and e['out']:
+                        counters['hybrid_merges'] += 1
+                        lo_ = 0 if e['p1'] < e['p2'] else 1
+                        surv = (a1, a2)[lo_]
+                        bm = b1[7] + b2[7]
+                        sc = max(abs(b1[7]), abs(b2[7]), 1e-300)
+                        if any(x != x for x in surv):
+                            add('hybrid:merge:nan-after-merge', '%s: masses %r %r: merged particle %r' % (desc, b1[7], b2[7], surv))
+                        if gt(abs(surv[7] - bm), 8 * EPS * sc):
+                            add('hybrid:merge:mass-not-conserved', '%s: %r + %r -> %r' % (desc, b1[7], b2[7], surv[7]))
+                        for k in range(3):
+                            mom_b = b1[7] * b1[3 + k] + b2[7] * b2[3 + k]
+                            msc = abs(b1[7] * b1[3 + k]) + abs(b2[7] * b2[3 + k]) + 1e-300
+                            if gt(abs(surv[7] * surv[3 + k] - mom_b), 64 * EPS * msc):
+                                add('hybrid:merge:momentum-not-conserved', '%s: component %d: %r -> %r' % (desc, k, mom_b, surv[7] * surv[3 + k]))
+                            com_b = b1[7] * b1[k] + b2[7] * b2[k]
+                            csc = abs(b1[7] * b1[k]) + abs(b2[7] * b2[k]) + 1e-300
+                            if gt(abs(surv[7] * surv[k] - com_b), 64 * EPS * csc):
+                                add('hybrid:merge:centre-of-mass-not-conserved', '%s: component %d: %r -> %r' % (desc, k, com_b, surv[7] * surv[k]))
+                        rem = e['h2'] if e['out'] == 2 else e['h1']
+                        if rem in removed:
+                            add('hybrid:resolve:particle-removed-twice', '%s: %r' % (desc, rem))
+                        removed.append(rem)
+                        if e['enc']:
+                            pass_removed.append((e['h1'], e['h2'], rem))
+                            base = expected if expected is not None else e['group']
+                            expected = [h for h in base if h != rem]
+                            idx = sorted(ids0.index(h) for h in base if h in ids0)
+                            if idx and idx != list(range(idx[0], idx[0] + len(idx))):
+                                counters['hybrid_removals_from_noncontiguous_group'] += 1
+                elif ev[0] in ('obs', 'hook'):
+                    if pass_snap is not None:
+                        close_pass()            # the search pass that had callbacks ends at the next force evaluation / hook
+                    elif ev[0] == 'hook':
+                        # a search pass without any callback: the state at the hook is the state the search ran on
+                        counters['hybrid_hook_passes_without_callbacks'] += 1
+                        pass_t, pass_presented, pass_snap, pass_removed = ev[2], set(), ev[3], []
+                        pass_group = list(expected) if expected is not None else list(ev[1])
+                        close_pass()
+                    pass_t, pass_snap, pass_group = None, None, None
+                    if expected is not None:
+                        counters['hybrid_group_observations_after_a_removal'] += 1
+                        if sorted(ev[1]) != sorted(expected):
+                            add('hybrid:encounter-group-after-removal-is-not-the-group-minus-the-removed-body:%s' % integ, '%s: group observed at t=%r is %r, expected %r (removed so far %r; array order at step start %r)' % (desc, ev[2], ev[1], expected, removed, ids0))
+                            expected = list(ev[1])
+            close_pass()
+            if len(removed) >= 2:
+                counters['hybrid_steps_with_2plus_removals'] += 1
+            ids1 = [p.hash.value for p in sim.particles]
+            if len(ids1) != len(set(ids1)):
+                add('hybrid:resolve:particle-duplicated', '%s: identities after the step %r' % (desc, ids1))
+            if set(ids1) != set(ids0) - set(removed):
+                add('hybrid:resolve:survivors-do-not-match-removals', '%s: before %r removed %r after %r' % (desc, ids0, removed, ids1))
+            cells.add(json.dumps(['hybrid', integ, resolver, min(len(removed), 3), bool(log)]))
+            if sim.N < 3:
+                break
+    for v in viol:
+        v['case_seed'] = case['seed']
+    return dict(violations=viol, cells=[json.loads(c) for c in cells], counters=counters, sample=dict(seed=case['seed'], kind='hybrid'))
+
+
 def run_case(case):
+    if case.get('kind') == 'hybrid':
+        return run_hybrid(case)
     import ctypes, warnings
     warnings.simplefilter('ignore')
     import rebound
@@ -436,13 +712,17 @@ def main(tier, seed):
         cases['rel'].append(dict(seed=r.getrandbits(40), n=8, modes=['direct', 'line', 'tree', 'linetree'], resolvers=['record', 'merge', 'hardsphere']))
     for i in range(max(8, nb // 10)):
         cases['asan'].append(dict(seed=r.getrandbits(40), n=6, modes=['direct', 'line', 'tree', 'linetree'], resolvers=['merge', 'merge', 'hardsphere']))
+    for i in range(160 if tier == 'quick' else 2400):
+        cases['asan' if i % 8 == 7 else 'rel'].append(dict(kind='hybrid', seed=r.getrandbits(40), n=6))
     for variant, cs in cases.items():
-        res = core.run_cases('checks.c13_collisions', variant, cs, timeout_case=900)
+        res = core.run_cases('checks.c13_collisions', variant, cs, timeout_case=120)
         from checks.c14_bookkeeping import crash_mech
         for c, rr in zip(cs, res):
             V.absorb(c, rr, crash_mech=crash_mech)
     inc = []
-    for k in ('steps', 'callbacks', 'required_pairs', 'steps_with_collisions', 'steps_with_3plus_cluster', 'merges', 'bounces', 'ghost_pairs_required', 'removals', 'unequal_radius_pairs', 'fixup_steps'):
+    for k in ('steps', 'callbacks', 'required_pairs', 'steps_with_collisions', 'steps_with_3plus_cluster', 'merges', 'bounces', 'ghost_pairs_required', 'removals', 'unequal_radius_pairs', 'fixup_steps',
+              'hybrid_merges', 'hybrid_group_observations_after_a_removal', 'hybrid_passes_classified', 'hybrid_required_pairs', 'hybrid_steps_with_2plus_removals',
+              'hybrid_removals_from_noncontiguous_group', 'hybrid_hook_passes_without_callbacks'):
         if V.counters.get(k, 0) == 0:
             inc.append('monitor counter %s is zero' % k)
     return V.finish(
